@@ -438,8 +438,9 @@ class ConfigNode(metaclass=ConfigNodeMeta):
         '''
         self._priority = other._priority
         self._delete = other._delete
-        if other._safe is not None:
-            self._safe = notnone_or(self._safe, True) and other._safe
+        if other._safe is not None or other._implicit_safe is False:
+            # "other" can also be unsafe because it sits under an !unsafe node - its inherited flag would otherwise be lost
+            self._safe = notnone_or(self._safe, True) and notnone_or(other._safe, True) and notnone_or(other._implicit_safe, True)
         if other._default_safe is not None:
             self._default_safe = notnone_or(self._default_safe, True) and other._default_safe
         self._metadata = { **self._metadata, **other._metadata }
@@ -461,8 +462,9 @@ class ConfigNode(metaclass=ConfigNodeMeta):
             In such case, its content will be identical to the content of "self" after replacement has been done,
             with any extra content coming from other's type preserved.
         '''
-        if other._safe is not None:
-            self._safe = notnone_or(self._safe, True) and other._safe
+        if other._safe is not None or other._implicit_safe is False:
+            # "other" can also be unsafe because it sits under an !unsafe node - its inherited flag would otherwise be lost
+            self._safe = notnone_or(self._safe, True) and notnone_or(other._safe, True) and notnone_or(other._implicit_safe, True)
         if other._default_safe is not None:
             self._default_safe = notnone_or(self._default_safe, True) and other._default_safe
         self._metadata = { **other._metadata, **self._metadata }
